@@ -55,7 +55,7 @@ def run(ctx):
         "distinct_nontrivial": len([s_ for s_ in scen if s_["script"]["panicAt"] > 0]),
         "rule": "every handler script of the model (WriteHeader 201/404/503 or none, body or not, Flush or not, panic at each position "
                 "with 6 value kinds incl. nil and an error wrapping ErrAbortHandler) x 3 log handlers x matched/unmatched route x real "
-                "HTTP server / recorder, then 16 clients in flight with random scripts; non-trivial = scripts with a panic",
+                "HTTP server (escaped panics recorded) / recorder, bodies written through eight different writer paths incl. zero-length writes, then 16 clients in flight with random scripts; non-trivial = scripts with a panic",
         "exhaustive": True, "scripts": len(scen), "runs": stats["runs"], "mismatches": len(mm),
     })
     ctx.sample(scen[3])
